@@ -528,7 +528,7 @@ impl Archive {
                 } else {
                     // If block table comes before hash table, calculate differently
                     let file_size = self.reader.get_ref().metadata()?.len();
-                    (file_size - hash_table_offset) as usize
+                    file_size.saturating_sub(hash_table_offset) as usize
                 };
 
                 if available_space < uncompressed_size {
@@ -671,7 +671,7 @@ impl Archive {
                 let file_size = self.reader.get_ref().metadata()?.len();
                 let next_section = if let Some(hi_block_pos) = self.header.hi_block_table_pos {
                     if hi_block_pos != 0 {
-                        self.archive_offset + hi_block_pos
+                        self.archive_offset.saturating_add(hi_block_pos)
                     } else {
                         file_size
                     }
@@ -753,8 +753,11 @@ impl Archive {
         if let Some(hi_block_pos) = self.header.hi_block_table_pos
             && hi_block_pos != 0
         {
-            let hi_block_offset = self.archive_offset + hi_block_pos;
-            let hi_block_end = hi_block_offset + (self.header.block_table_size as u64 * 8);
+            // The position is a full 64-bit header field: a sum that does not fit is beyond
+            // any file
+            let hi_block_offset = self.archive_offset.saturating_add(hi_block_pos);
+            let hi_block_end =
+                hi_block_offset.saturating_add(self.header.block_table_size as u64 * 8);
 
             let file_size = self.reader.get_ref().metadata()?.len();
             if hi_block_end > file_size {
